@@ -132,6 +132,48 @@ def msmBits (terms : List (Nat × WPt)) : Res :=
 def pointFromCoordinates (P : WPt) : Res :=
   if E.onCurve ⟨false, P.x, P.y⟩ then .ok ⟨false, P.x, P.y⟩ else .unsat
 
+/-! ### `mul_by_u128` as wired: incomplete additions (`incomplete_add`) and `double` -/
+
+/-- `incomplete_add(p, q)` for non-identity operands as the honest prover runs it: the chord
+sum when `p.x ≠ q.x`; for `p.x = q.x` the witness generation writes `λ = 1` and the true sum, which
+the constraints reject (`p = q`) or which cannot exist (`p = −q`): `none` = rejected. -/
+def incAddHonest (P Q : WPt) : Option WPt :=
+  if P.x == Q.x then none else some (E.third (E.chordLambda P Q) P Q)
+
+/-- `incomplete_add(p, q)` against the prover of `incomplete_add_equal_free`: for EQUAL operands
+the constraints accept `(λ² − 2x, λ(x − rx) − y)` for every `λ`; the prover keeps the `λ = 1`
+that `assert_add` writes for `p.x = q.x` and witnesses `r` accordingly. `p = −q` stays rejected. -/
+def incAddForge (P Q : WPt) : Option WPt :=
+  if P.x == Q.x then (if P.y == Q.y then some (E.third (1 % E.p) P Q) else none)
+  else some (E.third (E.chordLambda P Q) P Q)
+
+/-- `mul_by_u128` with a given `incomplete_add` (outer `none` = the circuit rejects). Same loop as
+`mulLsbG`; `double` is complete for non-identity points. -/
+def mulLsbInc (inc : WPt → WPt → Option WPt) : Nat → Nat → WPt → Option WPt → Option (Option WPt)
+  | 0, _, _, res => some res
+  | fuel + 1, n, tmp, res =>
+    if n = 0 then some res else
+    let next := fun (r : Option WPt) => mulLsbInc inc fuel (n / 2) (E.double tmp) r
+    if n % 2 = 1 then
+      match res with
+      | none => next (some tmp)
+      | some a => match inc a tmp with
+        | none => none
+        | some r => next (some r)
+    else next res
+
+/-- `point_from_coordinates(x, y)` followed by `mul_by_constant(n, ·)` for `0 < n < 2^128` on a
+curve point (not flagged): the identity swap selects the point itself, `mul_by_u128` runs with
+the given `incomplete_add`. -/
+def mulConstRaw (inc : WPt → WPt → Option WPt) (n x y : Nat) : Res :=
+  if n = 0 ∨ n ≥ 2 ^ 128 then .unsat else
+  match E.pointFromCoordinates ⟨false, x, y⟩ with
+  | .unsat => .unsat
+  | .ok P =>
+    match E.mulLsbInc inc (n.log2 + 1) (u128OfDigits n) P none with
+    | some (some R) => .ok R
+    | _ => .unsat
+
 /-! ## Custom-gate activations -/
 
 /-- One activation of an EC custom gate: the value in the condition column (`1`, `0`, or `p − 1`
